@@ -149,12 +149,27 @@ pub fn make_case(c: &CaseRef, fx: &Fixtures) -> Option<(String, Cfg, String)> {
             Some((s, cfg, "mal".into()))
         }
         "mut" => Some(mut_case(c.idx, fx)),
+        "corp" => {
+            // the regression corpus: demonstration inputs of the seeded changes, the failing inputs
+            // the checks found for them, witnesses of the repaired findings (/verif/corpus)
+            let cx = corpus();
+            let item = (c.idx / FIX_CFGS as u64) as usize;
+            let k = (c.idx % FIX_CFGS as u64) as usize;
+            let (name, src) = cx.items.get(item)?;
+            Some((src.clone(), fix_cfg(k), name.clone()))
+        }
         _ => None,
     }
 }
 
+pub fn corpus() -> &'static Fixtures {
+    static C: std::sync::OnceLock<Fixtures> = std::sync::OnceLock::new();
+    C.get_or_init(|| Fixtures::load(concat!(env!("CARGO_MANIFEST_DIR"), "/../corpus"), false))
+}
+
 pub fn universe_size(gen: &str, fx: &Fixtures) -> u64 {
     match gen {
+        "corp" => (corpus().items.len() * FIX_CFGS) as u64,
         "fix" => (fx.items.len() * FIX_CFGS) as u64,
         "gram" => GRAM_U,
         "exh" => exh_universe(),
@@ -349,9 +364,10 @@ fn run_printer(prop: &str, tier: &str, seed: u64, outdir: &str, only: Option<(&'
         }
     } else {
         let thorough = tier == "thorough";
-        let (nfix, nexh, ngram, nimp) = if thorough { (u64::MAX, u64::MAX, 300_000, 20_000) } else { (6_000, 8_000, 12_000, 1_000) };
-        select("nl", NL_U, if thorough { 60_000 } else { 4_000 }, seed, &mut cases);
-        select("mut", MUT_U, if thorough { 150_000 } else { 10_000 }, seed, &mut cases);
+        let (nfix, nexh, ngram, nimp) = if thorough { (u64::MAX, u64::MAX, 300_000, 20_000) } else { (6_000, 8_000, 20_000, 2_000) };
+        select("corp", universe_size("corp", &fx), u64::MAX, seed, &mut cases);
+        select("nl", NL_U, if thorough { 60_000 } else { 6_000 }, seed, &mut cases);
+        select("mut", MUT_U, if thorough { 150_000 } else { 16_000 }, seed, &mut cases);
         select("fix", universe_size("fix", &fx), nfix, seed, &mut cases);
         select("exh", universe_size("exh", &fx), nexh, seed, &mut cases);
         select("gram", GRAM_U, ngram, seed, &mut cases);
@@ -366,17 +382,66 @@ fn run_printer(prop: &str, tier: &str, seed: u64, outdir: &str, only: Option<(&'
     let nthreads = std::thread::available_parallelism().map(|n| n.get()).unwrap_or(8).min(16);
     let chunk = (cases.len() + nthreads - 1) / nthreads.max(1);
     std::fs::create_dir_all(outdir).unwrap();
+    // watchdog: the case each worker is on, and since when.  A case that runs for 30 s or drives
+    // the process beyond 12 GB is reported as the failing input (formatting did not return in
+    // bounded time / space) and the run stops: the workers cannot be interrupted.
+    let current: Vec<std::sync::Mutex<(Option<CaseRef>, std::time::Instant)>> =
+        (0..nthreads + 1).map(|_| std::sync::Mutex::new((None, std::time::Instant::now()))).collect();
+    let done = std::sync::atomic::AtomicBool::new(false);
     let results: Vec<(Stats, Vec<String>)> = std::thread::scope(|sc| {
         let mut hs = vec![];
+        {
+            let (current, done, fx) = (&current, &done, &fx);
+            sc.spawn(move || {
+                while !done.load(std::sync::atomic::Ordering::Relaxed) {
+                    std::thread::sleep(std::time::Duration::from_millis(500));
+                    let rss_gb = std::fs::read_to_string("/proc/self/statm")
+                        .ok()
+                        .and_then(|t| t.split_whitespace().nth(1).and_then(|x| x.parse::<u64>().ok()))
+                        .map(|pages| pages * 4096 / (1 << 30))
+                        .unwrap_or(0);
+                    let mut oldest: Option<(CaseRef, u64)> = None;
+                    for c in current.iter() {
+                        let g = c.lock().unwrap();
+                        if let Some(cr) = &g.0 {
+                            let ms = g.1.elapsed().as_millis() as u64;
+                            if oldest.as_ref().map_or(true, |o| ms > o.1) {
+                                oldest = Some((CaseRef { gen: cr.gen, idx: cr.idx }, ms));
+                            }
+                        }
+                    }
+                    if let Some((cr, ms)) = oldest {
+                        if ms > 30_000 || (rss_gb >= 12 && ms > 2_000) {
+                            if let Some((src, cfg, _)) = make_case(&cr, fx) {
+                                let why = if ms > 30_000 { format!("no result after {} s", ms / 1000) } else { format!("{} GB resident after {} s on this input", rss_gb, ms / 1000) };
+                                let j = fail_json_pub(prop, cr.gen, cr.idx, &src, cfg, "hang", &why, "");
+                                let _ = std::fs::write(format!("{}/oracle.jsonl", outdir), format!("{}\n", j));
+                                let mut stw = Stats::default();
+                                stw.evaluated = 1;
+                                stw.failures = 1;
+                                stw.distinct.insert(cr.idx);
+                                stw.nontrivial.insert(cr.idx);
+                                stw.samples.push(format!("{}:{} (run stopped by the watchdog)", cr.gen, cr.idx));
+                                let _ = std::fs::write(format!("{}/stats.json", outdir), stw.to_json());
+                                println!("HANG {} {}", cr.gen, cr.idx);
+                                std::process::exit(3);
+                            }
+                        }
+                    }
+                }
+            });
+        }
         for (ti, part) in cases.chunks(chunk.max(1)).enumerate() {
             let fx = &fx;
             let known = &known;
+            let current = &current;
             let h = std::thread::Builder::new().stack_size(256 << 20).spawn_scoped(sc, move || {
                 let mut st = Stats::default();
                 let mut fails = vec![];
                 let f = std::fs::File::create(format!("{}/cases.{}.txt", outdir, ti)).unwrap();
                 let mut w = std::io::BufWriter::new(f);
                 for c in part {
+                    *current[ti].lock().unwrap() = (Some(CaseRef { gen: c.gen, idx: c.idx }), std::time::Instant::now());
                     let Some((src, mut cfg, feat)) = make_case(c, fx) else { continue };
                     if matches!(prop, "C06" | "C07" | "C08" | "C09" | "C12") {
                         // import reordering legitimately moves words; it is covered by C01/C03/C10/C19
@@ -482,12 +547,15 @@ fn run_printer(prop: &str, tier: &str, seed: u64, outdir: &str, only: Option<(&'
                         writeln!(w, "DOC {}", ob.doc).unwrap();
                     }
                 }
+                *current[ti].lock().unwrap() = (None, std::time::Instant::now());
                 w.flush().unwrap();
                 (st, fails)
             });
             hs.push(h.unwrap());
         }
-        hs.into_iter().map(|h| h.join().unwrap()).collect()
+        let r = hs.into_iter().map(|h| h.join().unwrap()).collect();
+        done.store(true, std::sync::atomic::Ordering::Relaxed);
+        r
     });
     let mut st = Stats::default();
     let mut of = std::fs::File::create(format!("{}/oracle.jsonl", outdir)).unwrap();
@@ -529,6 +597,7 @@ fn main() {
                 "imp" => "imp",
                 "nl" => "nl",
                 "mut" => "mut",
+                "corp" => "corp",
                 _ => "mal",
             };
             run_printer(&args[2], "thorough", 0, &args[6], Some((gen, args[4].parse().unwrap(), args[5].parse().unwrap())));
@@ -610,7 +679,7 @@ fn main() {
         // vh show <gen> <idx>: the source and configuration of a case
         "show" => {
             let fx = Fixtures::load(FIXTURE_ROOT, true);
-            let gen: &'static str = match args[2].as_str() { "fix" => "fix", "gram" => "gram", "exh" => "exh", "imp" => "imp", "nl" => "nl", "mut" => "mut", _ => "mal" };
+            let gen: &'static str = match args[2].as_str() { "fix" => "fix", "gram" => "gram", "exh" => "exh", "imp" => "imp", "nl" => "nl", "mut" => "mut", "corp" => "corp", _ => "mal" };
             match make_case(&CaseRef { gen, idx: args[3].parse().unwrap_or(0) }, &fx) {
                 Some((s, cfg, d)) => {
                     eprintln!("{:?} {}", cfg, d);
